@@ -337,14 +337,14 @@ func checkBuildLiterals(c *Ctx, r *Report) {
 					return
 				}
 				switch sel {
-				case "rmcpLayer":
+				case fRmcp:
 					get := func(n string) int64 {
 						k, _ := constInt(f[n])
 						return k
 					}
 					okk := get("Version") == 6 && get("Sequence") == 0xff && get("Class") == 7 && len(f) == 3
 					r.Check(okk, name+"|RMCP literal", st.Pos(), "version 6, sequence 0xFF, class 7", fmt.Sprintf("RMCP header literal is version %d sequence %#x class %d", get("Version"), get("Sequence"), get("Class")))
-				case "messageLayer":
+				case fMsg:
 					okAddr := callConstArg(f["RemoteAddress"], "Address") == 0x10 && callConstArg(f["LocalAddress"], "Address") == 0x40
 					okLUN := false
 					if call, ok := f["RemoteLUN"].(*ssa.Call); ok && call.Call.IsInvoke() && call.Call.Method.Name() == "RemoteLUN" {
